@@ -29,9 +29,10 @@ def _is_composite(env, t):
     return b["k"] == "ref" and env.d(b["i"])["k"] in ("struct", "union")
 
 
-def gen_overfill(env, indices):
+def gen_overfill(env, indices, fn="overfill"):
     """C++ overloads overfill(T&) that resize every limited array beyond its
-    limit (C05: 'limited arrays filled beyond their limit')."""
+    limit (C05: 'limited arrays filled beyond their limit'); with fn="outgrow":
+    overloads that grow every vector counted by a ONE-BYTE sizer to 256 elements."""
     out = ["namespace prophy { namespace generated {"]
     for i in indices:
         d = env.d(i)
@@ -43,7 +44,7 @@ def gen_overfill(env, indices):
             cases = []
             for a, arm in enumerate(d["arms"], 1):
                 if _is_composite(env, arm["t"]):
-                    cases.append("case %s::discriminator_%s: overfill(x.%s); break;" % (n, env.aname(a), env.aname(a)))
+                    cases.append("case %s::discriminator_%s: %s(x.%s); break;" % (n, env.aname(a), fn, env.aname(a)))
             if cases:
                 body.append("switch (x.discriminator) { %s default: break; }" % " ".join(cases))
         else:
@@ -51,14 +52,16 @@ def gen_overfill(env, indices):
                 f, name = m["f"], env.fname(j)
                 comp = _is_composite(env, m["t"])
                 if f == "plain" and comp:
-                    body.append("overfill(x.%s);" % name)
+                    body.append("%s(x.%s);" % (fn, name))
                 elif f == "opt" and comp:
-                    body.append("if (x.%s) overfill(*x.%s);" % (name, name))
-                elif f == "lim":
+                    body.append("if (x.%s) %s(*x.%s);" % (name, fn, name))
+                elif f == "lim" and fn == "overfill":
                     body.append("x.%s.resize(%d);" % (name, m["n"] + 2))
+                elif f == "ext" and fn == "outgrow" and env.base(d["ms"][m["c"] - 1]["t"])["w"] == 1:
+                    body.append("x.%s.resize(256);" % name)
                 if f in ("fixed", "dyn", "lim", "ext", "greedy") and comp:
-                    body.append("for (size_t i = 0; i < x.%s.size(); ++i) overfill(x.%s[i]);" % (name, name))
-        out.append("inline void overfill(%s& x) { (void)x; %s }" % (n, " ".join(body)))
+                    body.append("for (size_t i = 0; i < x.%s.size(); ++i) %s(x.%s[i]);" % (name, fn, name))
+        out.append("inline void %s(%s& x) { (void)x; %s }" % (fn, n, " ".join(body)))
     out.append("} }")
     return "\n".join(out) + "\n"
 
@@ -72,6 +75,7 @@ def gen_full_driver(env_by_gid, roots, all_indices_env, stem):
         todo = [i for i in indices if env.name(i) not in seen]
         seen.update(env.name(i) for i in todo)
         src.append(gen_overfill(env, todo))
+        src.append(gen_overfill(env, todo, fn="outgrow"))
     src.append('#include "full_driver.hpp"')
     src.append("using namespace prophy::generated;")
     src.append("const reg_entry REGISTRY[] = {")
